@@ -94,6 +94,9 @@ class Real3(c01.Real):
         if spec.get("custom") == "shared":
             self._build_shared(spec, order, order_seed)
             return
+        if spec.get("custom") in ("pairA", "pairB"):
+            self._build_pair(spec, order, order_seed)
+            return
         user = spec.get("user") or {}
         extra = {f"n{i}" for i in spec.get("extra") or []}
         if not user and not extra:
@@ -169,6 +172,53 @@ class Real3(c01.Real):
         self.model = gb.build_model()
         self._extract(order, order_seed)
 
+    def _build_pair(self, spec, order, order_seed):
+        """two models in which the same key resolves differently:
+        pairA: variables "scale", "loc" with the default value nodes "scale_value", "loc_value";
+        pairB: variable "scale" whose value node the user named "scale_param", an unrelated node "scale_value",
+               a NODE named "loc" (and, optionally, an unrelated node "loc_value")"""
+        import liesel.model as lsl
+        self.lsl = lsl
+        self.spec = spec
+        self.log = []
+        self.logging = False
+        self.group_fs = {}
+        self.dist_spec = {}
+        v = spec["vals"]
+        f = spec["fs"]
+
+        def fn(fs):
+            return lambda *a: apply_fs(fs, list(a))
+
+        def dist(fs):
+            class HDist:
+                def __init__(self, *a):
+                    self.vals = list(a)
+
+                def log_prob(self, at):
+                    return apply_fs(fs, self.vals + [at])
+            return HDist
+
+        z = lsl.Value(v[2], _name="z")
+        if spec["custom"] == "pairA":
+            scale = lsl.Var(v[0], name="scale")
+            loc = lsl.Var(v[1], name="loc")
+            ins = [scale, loc, z]
+        else:
+            scale = lsl.Var(lsl.Value(v[0], _name="scale_param"), name="scale")
+            loc = lsl.Value(v[1], _name="loc")
+            ins = [scale, loc, z, lsl.Value(v[4], _name="scale_value")]
+            if spec.get("loc_value"):
+                ins.append(lsl.Value(v[5], _name="loc_value"))
+        m = lsl.Calc(fn(f[0][:2] + [f[0][2][:len(ins)]]), *ins, _name="m")
+        w = lsl.Var(v[3], lsl.Dist(dist(f[1]), m), name="w")
+        w.parameter = True
+        self.fsmap = {"m": f[0][:2] + [f[0][2][:len(ins)]], "w_log_prob": f[1]}
+        gb = lsl.GraphBuilder(to_float32=False)
+        gb.add(w)
+        self.model = gb.build_model()
+        self._extract(order, order_seed)
+
     def canon(self, name, v):
         """canonical integer of what node `name` shows (in the model or in a model state)"""
         d = getattr(self, "dist_spec", {}).get(name)
@@ -191,6 +241,52 @@ def shared_spec(rnd):
         return ["aff", rnd.randint(0, 999), [rnd.randint(1, 9) for _ in range(n)]]
     return {"custom": "shared", "items": [], "vals": [rnd.randint(-50, 50) for _ in range(4)],
             "fs": [fs(3), fs(2), fs(2), fs(2)], "switch": rnd.choice(SINGLETONS), "split": rnd.randint(2, 9)}
+
+
+def pair_specs(rnd):
+    def fs(n):
+        return ["aff", rnd.randint(0, 999), [rnd.randint(1, 9) for _ in range(n)]]
+    common = {"items": [], "fs": [fs(5), fs(2)]}
+    a = dict(common, custom="pairA", vals=[rnd.randint(-50, 50) for _ in range(6)])
+    b = dict(common, custom="pairB", vals=[rnd.randint(-50, 50) for _ in range(6)], loc_value=rnd.random() < 0.5)
+    return a, b
+
+
+def make_pair(rnd):
+    """the two cases of a pair of models whose interfaces are used alternately in one session"""
+    sa, sb = pair_specs(rnd)
+    if rnd.random() < 0.5:
+        sa, sb = sb, sa          # which model's interface is used first
+    args = []
+    for spec in (sa, sb):
+        real = Real3(spec, None, rnd.randrange(2 ** 30))
+        info = Info(real)
+        keys = [k for k in ("scale", "loc", "z", "w") if k in info.kid]
+        steps = []
+        npool = 1
+        for _ in range(rnd.randint(2, 4)):
+            ks = rnd.sample(keys, rnd.randint(1, len(keys)))
+            if "scale" not in ks and "loc" not in ks:
+                ks.append(rnd.choice(["scale", "loc"]))
+            pos = [[info.kid[k], rnd.randint(-99, 99)] for k in ks]
+            steps.append(["update", pos, rnd.randrange(npool)])
+            npool += 1
+            steps.append(["extract", [info.kid[k] for k in ks], npool - 1])
+            if rnd.random() < 0.4:
+                steps.append(["extract", [info.kid[k] for k in keys], rnd.randrange(npool)])
+        args.append({"spec": spec, "pre": [], "steps": steps, "order": real.order, "iface_kind": "liesel"})
+    try:
+        cases = drive_pair(args[0], args[1])
+    except Exception as ex:
+        import traceback
+        msg = str(ex) if isinstance(ex, Anomaly) else (
+            f"driving two models through their interfaces alternately raises {ex!r} at " + traceback.format_exc().strip().splitlines()[-3].strip())
+        cases = [{"kind": "graph", "anomaly": msg, "spec": x["spec"], "order": x["order"], "pre": [], "steps": x["steps"],
+                  "iface_kind": "liesel", "partner": args[1 - j], "pair_first": j == 0} for j, x in enumerate(args)]
+    for c in cases:
+        c["scenario"] = "two_models"
+        c["flavour"] = "pair"
+    return cases
 
 
 def key_table(real):
@@ -248,6 +344,37 @@ def make_iface(kind, model):
 
 def drive(spec, pre, steps, order=None, order_seed=0, iface_kind="liesel"):
     """build the real model, create the interface, apply the steps; returns the case dict"""
+    g = _drive_gen(spec, pre, steps, order, order_seed, iface_kind)
+    try:
+        while True:
+            next(g)
+    except StopIteration as fin:
+        return fin.value
+
+
+def drive_pair(a, b):
+    """two models, one interface each, in one session, used ALTERNATELY (a's interface is created first, then b's,
+    then a step of a, a step of b, ...); a, b = dicts with spec / pre / steps / order / iface_kind.
+    Returns the two case dicts; each names its partner, so that a replay can repeat the interleaving."""
+    gens = [_drive_gen(x["spec"], x["pre"], x["steps"], x.get("order"), 0, x.get("iface_kind", "liesel")) for x in (a, b)]
+    res = [None, None]
+    live = [True, True]
+    while any(live):
+        for j, g in enumerate(gens):
+            if live[j]:
+                try:
+                    next(g)
+                except StopIteration as fin:
+                    res[j] = fin.value
+                    live[j] = False
+    for j, (me, other) in enumerate(((a, b), (b, a))):
+        res[j]["partner"] = {k: other.get(k) for k in ("spec", "pre", "steps", "order", "iface_kind")}
+        res[j]["partner"]["order"] = res[1 - j]["order"]
+        res[j]["pair_first"] = j == 0
+    return res
+
+
+def _drive_gen(spec, pre, steps, order=None, order_seed=0, iface_kind="liesel"):
     real = Real3(spec, order, order_seed)
     m = real.model
     names, nmap, vmap = key_table(real)
@@ -268,6 +395,7 @@ def drive(spec, pre, steps, order=None, order_seed=0, iface_kind="liesel"):
     iface = make_iface(iface_kind, m)
     if (freeze(m.state), m.auto_update, [bool(nd.outdated) for nd in real.nodes]) != created_before:
         base["create_mut"] = "creating the interface modified the user's model (state before / after differ)"
+    yield
     state0 = m.state
     pool = [state0]
     base["state0"] = view_of(real, state0)
@@ -392,6 +520,7 @@ def drive(spec, pre, steps, order=None, order_seed=0, iface_kind="liesel"):
             ob["mut_model"] = "the user's original model was modified by the interface call"
         out_steps.append(st)
         obs.append(ob)
+        yield
     base["steps"] = out_steps
     base["obs"] = obs
     return base
@@ -413,7 +542,7 @@ def drive_safe(spec, pre, steps, order, kind="liesel"):
 # ---------------------------------------------------------------------------------------------
 SCENARIOS = ["same_state_twice", "chain", "by_var_name", "alias", "errors", "empty_pos", "auto_off_internal",
              "outdated_state", "user_lp", "interleaved", "getput", "shared_name", "goose_alias", "singleton_values",
-             "extra_state", "random"]
+             "extra_state", "two_models", "random"]
 
 
 class Info:
@@ -601,6 +730,8 @@ def gen_steps(rnd, info: Info, scenario):
 
 
 def make_case(rnd, quick, scenario, flavour):
+    if scenario == "two_models":
+        return make_pair(rnd)[1]
     for _try in range(100):
         if scenario == "shared_name":
             spec = shared_spec(rnd)
@@ -1127,7 +1258,10 @@ def generate(ctx):
         flavour = flavours[(i // len(SCENARIOS)) % len(flavours)]
         if scenario in ("by_var_name", "alias") and flavour == "plain":
             flavour = "vars"
-        cases.append(make_case(rnd, ctx.quick, scenario, flavour))
+        if scenario == "two_models":
+            cases.extend(make_pair(rnd))
+        else:
+            cases.append(make_case(rnd, ctx.quick, scenario, flavour))
         i += 1
     ncalls = 0
     distinct = set()
@@ -1198,6 +1332,10 @@ def generate(ctx):
         "DictInterface / DataclassInterface / NamedTupleInterface against the overlay model on dict, dataclass (plain, init=False "
         "field, non-idempotent __post_init__) and named-tuple states; object identity / type preservation",
         "the deprecated alias lsl.GooseModel is driven like gs.LieselInterface (stratum goose_alias)",
+        "independence from OTHER interface objects of the process (the model has one interface; C03_history_independent covers its own "
+        "earlier calls): stratum two_models - two models in which the same key resolves to different nodes (variable with a default-named "
+        "vs user-named value node plus an unrelated node of the default name; a variable name that is a node name in the other model), "
+        "one interface each, used alternately, every call compared with the model, direct assignment, a fresh interface and put-get",
         "extra state information (NodeState.extra of a harness Calc subclass that overrides the state property) is not in the Coq "
         "model: the extras of every returned state are compared by the oracle with direct assignment on a fresh copy of the real "
         "model, with a freshly created interface and with the digest of the node's value",
@@ -1235,7 +1373,11 @@ def oracle(c):
         return "; ".join(c["problems"][:3]) or None
     r = check_graph(c)
     if r:
-        return f"{r[1]}  [model: {describe(c)}]"
+        extra = ""
+        if c.get("partner"):
+            extra = (f"  [in one session with an interface for ANOTHER model ({c['partner']['spec'].get('custom')}), the two used alternately, "
+                     f"{'this one first' if c.get('pair_first') else 'the other one first'}]")
+        return f"{r[1]}  [model: {describe(c)}]{extra}"
     return None
 
 
@@ -1247,6 +1389,8 @@ def describe(c):
 
 def shrink(c):
     """drop steps while the oracle still fails on the real code"""
+    if c.get("partner"):
+        return None          # the failure may need the interleaving with the other model: replayed as a pair
     r = check_graph(c)
     steps = [list(s) for s in c["steps"]]
     if r and r[0] >= 0:
@@ -1447,6 +1591,7 @@ def replay(rp) -> int:
             return 0
         c = ds[0]
     kind = c.get("kind", "graph")
+    other = None
     try:
         if kind == "flat":
             cc = flat_case(c["flat"], c["fields"], c["values"], c["op"])
@@ -1455,7 +1600,13 @@ def replay(rp) -> int:
             cc = jit_case_safe(c["variant"], c["vals"], c["positions"], c.get("switch"))
             print({k: cc.get(k) for k in ("variant", "switch", "vals", "positions", "problems", "model_unchanged")})
         else:
-            cc = drive(c["spec"], c["pre"], c["steps"], c.get("order"), iface_kind=c.get("iface_kind", "liesel"))
+            if c.get("partner"):
+                me = {k: c.get(k) for k in ("spec", "pre", "steps", "order", "iface_kind")}
+                pair = drive_pair(me, c["partner"]) if c.get("pair_first", True) else drive_pair(c["partner"], me)[::-1]
+                cc, other = pair[0], pair[1]
+                print("two models, one interface each, used alternately;", "this model first" if c.get("pair_first", True) else "the other model first")
+            else:
+                cc = drive(c["spec"], c["pre"], c["steps"], c.get("order"), iface_kind=c.get("iface_kind", "liesel"))
             print("nodes (position: name kind inputs):")
             for k, nme in enumerate(cc["order"]):
                 print(f"  {k}: {nme} {cc['kinds'][k]} {cc['ins'][k]}")
@@ -1472,6 +1623,10 @@ def replay(rp) -> int:
         print("REPLAY FAILS: building / driving the model raises", repr(ex))
         return 1
     r = oracle(cc)
+    if not r and kind == "graph" and other is not None:
+        r = oracle(other)
+        if r:
+            print("(the failing call is made through the OTHER model's interface)")
     if r:
         print("REPLAY FAILS:", r)
         return 1
